@@ -54,7 +54,8 @@ impl FilesystemAdapter {
     }
 
     fn get_object_path(&self, key: &str) -> Result<(String, PathBuf)> {
-        let prefix = &key[..2];
+        // Keys shorter than the prefix (or with a multi-byte character across its end) are their own prefix
+        let prefix = key.get(..2).unwrap_or(key);
         let subdirectory = self.path.clone().join(prefix).join(key);
         Ok((prefix.to_string(), subdirectory))
     }
